@@ -138,15 +138,20 @@ BmStep(bm, acc, cfgs, n, e) ==
             IN
             IF stack /\ seqn # c.nxt THEN ko("data packet out of sequence")
             ELSE IF stack /\ seqn > c.hi THEN ko("data packet not cleared by a CTS")
-            ELSE IF stack /\ c.bam /\ gap < cfgs[n].bamInt THEN ko("BAM data packets closer than the minimum interval")
-            ELSE IF stack /\ ~c.bam /\ cfgs[n].cmdtInt >= 0 /\ c.lastDt >= 0 /\ gap < cfgs[n].cmdtInt
-                 THEN (IF c.fresh THEN ko("connection-mode data packets closer than the configured minimum interval (first packet after a CTS)")
-                       ELSE ko("connection-mode data packets closer than the configured minimum interval (within a window)"))
-            ELSE IF stack /\ c.bam /\ cfgs[n].paceMax >= 0 /\ gap > cfgs[n].paceMax THEN ko("BAM data packets further apart than allowed")
-            ELSE IF stack /\ Len(d) # 8 THEN ko("data packet is not 8 bytes long")
+            ELSE
+            LET \* clauses about WHEN the packet is sent do not stop the monitor from following the connection
+                late == IF stack /\ c.bam /\ gap < cfgs[n].bamInt THEN {"BAM data packets closer than the minimum interval"}
+                        ELSE IF stack /\ ~c.bam /\ cfgs[n].cmdtInt >= 0 /\ c.lastDt >= 0 /\ gap < cfgs[n].cmdtInt
+                        THEN (IF c.fresh THEN {"connection-mode data packets closer than the configured minimum interval (first packet after a CTS)"}
+                              ELSE {"connection-mode data packets closer than the configured minimum interval (within a window)"})
+                        ELSE IF stack /\ c.bam /\ cfgs[n].paceMax >= 0 /\ gap > cfgs[n].paceMax THEN {"BAM data packets further apart than allowed"}
+                        ELSE {}
+                okt(b) == [bm |-> b, bad |-> late]
+            IN
+            IF stack /\ Len(d) # 8 THEN ko("data packet is not 8 bytes long")
             ELSE IF stack /\ c2.nxt > c2.total /\ ~DecodesTo(c2, acc, sa, da)
                  THEN ko("frames on the bus do not decode (SAE layout) to a submitted message")
-            ELSE ok(IF c2.nxt > c2.total
+            ELSE okt(IF c2.nxt > c2.total
                     THEN (IF c.bam THEN BDel(bm, c.key) ELSE BPut(bm, [c2 EXCEPT !.buf = <<>>]))
                     ELSE BPut(bm, c2))
 
